@@ -834,7 +834,7 @@ func maskWidth(c *Ctx, newBig, lsh *ssa.Function, msb string) {
 		if k, ok := constInt(sub.Y); !ok || k != 1 {
 			return linForm{}, false
 		}
-		shl, ok := sub.X.(*ssa.BinOp)
+		shl, ok := origin(sub.X).(*ssa.BinOp)
 		if !ok || shl.Op != token.SHL {
 			return linForm{}, false
 		}
